@@ -23,6 +23,7 @@ import (
 	"os"
 	"path/filepath"
 	"reflect"
+	"regexp"
 	"sort"
 	"strconv"
 	"strings"
@@ -62,24 +63,24 @@ var (
 )
 
 type gfield struct {
-	Go, JSON            string
-	Omit, Skip, Embed   bool
-	Ty                  string // Coq term
-	T                   reflect.Type
-	Index               int
-	UnknownTagOptions   []string
+	Go, JSON          string
+	Omit, Skip, Embed bool
+	Ty                string // Coq term
+	T                 reflect.Type
+	Index             int
+	UnknownTagOptions []string
 }
 
 type gstruct struct {
-	Name      string
-	T         reflect.Type
-	Fields    []gfield
-	HasM      bool // implements json.Marshaler (value or pointer receiver)
-	HasU      bool
-	MPtrRecv  bool // MarshalJSON only on the pointer receiver
-	Hook      string
-	Unhook    string
-	Shadow    [][]string // selector paths (explicit about embedded fields) written by MarshalJSON before marshalling: shadow copies
+	Name     string
+	T        reflect.Type
+	Fields   []gfield
+	HasM     bool // implements json.Marshaler (value or pointer receiver)
+	HasU     bool
+	MPtrRecv bool // MarshalJSON only on the pointer receiver
+	Hook     string
+	Unhook   string
+	Shadow   [][]string // selector paths (explicit about embedded fields) written by MarshalJSON before marshalling: shadow copies
 }
 
 type graph struct {
@@ -448,8 +449,9 @@ func recvName(fd *ast.FuncDecl) string {
 }
 
 // marshal hook shapes:
-//   stmts...; return json.Marshal(recv.T)                                          -> HkShadow stmts T
-//   if recv.P == "" { assigns; return json.Marshal(recv.T) }; <file i/o>; return json.Marshal(recv.T)  -> HkDirMode P assigns T
+//
+//	stmts...; return json.Marshal(recv.T)                                          -> HkShadow stmts T
+//	if recv.P == "" { assigns; return json.Marshal(recv.T) }; <file i/o>; return json.Marshal(recv.T)  -> HkDirMode P assigns T
 func (g *graph) marshalHook(s *gstruct) string {
 	fd := g.methods(s.T.PkgPath())[s.T.Name()+".MarshalJSON"]
 	if fd == nil {
@@ -488,7 +490,9 @@ func (g *graph) marshalHook(s *gstruct) string {
 }
 
 // unmarshal hook shapes:
-//   if err := json.Unmarshal(b, &recv.T); err != nil { return err }; stmts...; return nil   -> UkShadow T stmts-as-text
+//
+//	if err := json.Unmarshal(b, &recv.T); err != nil { return err }; stmts...; return nil   -> UkShadow T stmts-as-text
+//
 // Derivations are more varied than on the marshal side (validation, defaults, file i/o); the statements that are
 // plain assignments are extracted, the others are counted (u_other) and named.
 func (g *graph) unmarshalHook(s *gstruct) string {
@@ -562,6 +566,8 @@ type scanField struct {
 	Name     string
 	Exported bool
 	Refs     []string // "pkgdir#Type" candidates mentioned by the field's type expression
+	JSONName string   // name part of the json tag ("" if none)
+	TypeStr  string   // printed type expression (simple forms)
 }
 
 type reg struct {
@@ -623,7 +629,7 @@ const v2Path = "mosn.io/mosn/pkg/config/v2"
 
 func scanRepo(repo string) (map[string]*pkgScan, error) {
 	pkgs := map[string]*pkgScan{}
-	for _, root := range []string{"pkg", "cmd"} {
+	for _, root := range []string{"pkg", "cmd", "istio/istio1106"} {
 		err := filepath.Walk(filepath.Join(repo, root), func(p string, fi os.FileInfo, err error) error {
 			if err != nil {
 				return nil
@@ -693,6 +699,9 @@ func scanRepo(repo string) (map[string]*pkgScan, error) {
 					refsOf(fl.Type, &refs, &anon)
 					for k, a := range anon {
 						an := fmt.Sprintf("%s.anon%d", name, len(ps.Types)+k)
+						if len(fl.Names) > 0 && len(anon) == 1 {
+							an = name + "." + fl.Names[0].Name
+						}
 						addStruct(an, a)
 						refs = append(refs, dir+"#"+an)
 					}
@@ -702,8 +711,14 @@ func scanRepo(repo string) (map[string]*pkgScan, error) {
 					if len(fl.Names) == 0 {
 						t.Fields = append(t.Fields, scanField{Name: exprStr(fl.Type), Exported: true, Refs: refs})
 					}
+					jn := ""
+					if fl.Tag != nil {
+						if tv, err := strconv.Unquote(fl.Tag.Value); err == nil {
+							jn = strings.Split(reflect.StructTag(tv).Get("json"), ",")[0]
+						}
+					}
 					for _, n := range fl.Names {
-						t.Fields = append(t.Fields, scanField{Name: n.Name, Exported: ast.IsExported(n.Name), Refs: refs})
+						t.Fields = append(t.Fields, scanField{Name: n.Name, Exported: ast.IsExported(n.Name), Refs: refs, JSONName: jn, TypeStr: typeStr(fl.Type)})
 					}
 				}
 				ps.Types[name] = t
@@ -747,6 +762,44 @@ func scanRepo(repo string) (map[string]*pkgScan, error) {
 		}
 	}
 	return pkgs, nil
+}
+
+func typeStr(e ast.Expr) string {
+	switch x := e.(type) {
+	case *ast.Ident:
+		return x.Name
+	case *ast.StarExpr:
+		return "*" + typeStr(x.X)
+	case *ast.ArrayType:
+		return "[]" + typeStr(x.Elt)
+	case *ast.SelectorExpr:
+		return exprStr(x)
+	}
+	return "?"
+}
+
+var keyLikeRe = regexp.MustCompile(`(?i)private|secret|passw|credential|(^|_)key($|_)|pem`)
+
+// keyLikeFields: every config-struct field (json-tagged, string or bytes) of the scanned packages whose JSON name
+// suggests key material or another secret.  The model lists the ones that were looked at (Model/Redact.v,
+// reviewed_keylike); a new one makes c20_covers false until it is reviewed.
+func keyLikeFields(pkgs map[string]*pkgScan) [][2]string {
+	var out [][2]string
+	for _, ps := range pkgs {
+		for _, t := range ps.Types {
+			for _, f := range t.Fields {
+				if f.JSONName == "" || f.JSONName == "-" || !keyLikeRe.MatchString(f.JSONName) {
+					continue
+				}
+				switch f.TypeStr {
+				case "string", "[]byte", "*string", "[]string", "json.RawMessage":
+					out = append(out, [2]string{t.Dir + "#" + t.Name, f.JSONName})
+				}
+			}
+		}
+	}
+	sort.Slice(out, func(i, j int) bool { return out[i][0]+out[i][1] < out[j][0]+out[j][1] })
+	return out
 }
 
 // tlsBearing: fixpoint over the scanned struct types.
@@ -1017,6 +1070,101 @@ func fileNameOps(repo string, recv string) ([]string, error) {
 	return ops, nil
 }
 
+// ---------------------------------------------------------------------------------------------------------------
+// (6) every position of the effective-config graph that is dumped as an opaque blob (interface{}, map[string]interface{},
+// json.RawMessage): type-level paths from the root
+
+func blobPositions(root reflect.Type) [][2]string {
+	var out [][2]string
+	var walk func(t reflect.Type, path string, seen map[reflect.Type]bool)
+	walk = func(t reflect.Type, path string, seen map[reflect.Type]bool) {
+		if t == rawMessageT {
+			out = append(out, [2]string{path, "json.RawMessage"})
+			return
+		}
+		switch t.Kind() {
+		case reflect.Interface:
+			if t.NumMethod() == 0 {
+				out = append(out, [2]string{path, "interface{}"})
+			}
+		case reflect.Ptr:
+			walk(t.Elem(), path, seen)
+		case reflect.Slice, reflect.Array:
+			if t.Elem().Kind() != reflect.Uint8 {
+				walk(t.Elem(), path+"[]", seen)
+			}
+		case reflect.Map:
+			if t.Elem().Kind() == reflect.Interface && t.Elem().NumMethod() == 0 {
+				out = append(out, [2]string{path, "map[string]interface{}"})
+				return
+			}
+			walk(t.Elem(), path+"[]", seen)
+		case reflect.Struct:
+			if t.Name() != "" && !inMosn(t) && t.PkgPath() != "mosn.io/api" {
+				return
+			}
+			if seen[t] {
+				return
+			}
+			seen2 := map[reflect.Type]bool{t: true}
+			for k := range seen {
+				seen2[k] = true
+			}
+			for i := 0; i < t.NumField(); i++ {
+				f := t.Field(i)
+				if f.PkgPath != "" && !f.Anonymous {
+					continue
+				}
+				walk(f.Type, path+"."+f.Name, seen2)
+			}
+		}
+	}
+	walk(root, "conf", map[reflect.Type]bool{})
+	return out
+}
+
+// scrubSwitch: do DumpJSON and the admin handler pass the serialized dump through the JSON-level redaction?
+func scrubSwitch(repo string) (bool, bool) {
+	ok := true
+	dump, handler := false, false
+	if _, f, err := ParseGoFile(repo, "pkg/configmanager/effectiveconfig.go"); err == nil {
+		if fd := FindFunc(f, "", "DumpJSON"); fd != nil {
+			ast.Inspect(fd.Body, func(n ast.Node) bool {
+				if c, ok := n.(*ast.CallExpr); ok && exprStr(c.Fun) == "RedactDumpJSON" {
+					dump = true
+				}
+				return true
+			})
+		} else {
+			ok = false
+		}
+	} else {
+		ok = false
+	}
+	if _, f, err := ParseGoFile(repo, "pkg/admin/server/apis.go"); err == nil {
+		if fd := FindFunc(f, "", "ConfigDump"); fd != nil {
+			marshals, scrubs := 0, 0
+			ast.Inspect(fd.Body, func(n ast.Node) bool {
+				if c, ok := n.(*ast.CallExpr); ok {
+					switch exprStr(c.Fun) {
+					case "json.MarshalIndent", "json.Marshal":
+						marshals++
+					case "configmanager.RedactDumpJSON":
+						scrubs++
+					}
+				}
+				return true
+			})
+			handler = marshals > 0 && scrubs >= marshals
+		} else {
+			ok = false
+		}
+	} else {
+		ok = false
+	}
+	return dump && handler, ok
+}
+
 func genCfgTypes(repo string) (string, error) {
 	g := &graph{repo: repo, byName: map[string]*gstruct{}, byType: map[reflect.Type]*gstruct{}, ok: true, pkgAST: map[string]map[string]*ast.FuncDecl{}}
 	root := g.structOf(configmanager.VerifConfType(), "root")
@@ -1131,6 +1279,13 @@ func genCfgTypes(repo string) (string, error) {
 	b.WriteString("(* every struct type of the tree that transitively contains a v2.TLSConfig (go/ast scan): (type, dir) *)\n")
 	pairs("cfg_tls_bearing_ast", bearingNames)
 	ok := srcSwitches(repo, &b) && g.ok
+	b.WriteString("(* positions of the effective config that are dumped as opaque blobs: (type-level path, kind) *)\n")
+	pairs("cfg_blob_positions", blobPositions(configmanager.VerifConfType()))
+	b.WriteString("(* json-tagged string/bytes fields of any struct under pkg/, cmd/, istio/istio1106 whose JSON name suggests a secret: (type, json name) *)\n")
+	pairs("cfg_keylike_fields", keyLikeFields(pkgs))
+	scrub, sok := scrubSwitch(repo)
+	ok = ok && sok
+	fmt.Fprintf(&b, "(* every serialisation of the dump (DumpJSON and each json.Marshal* of admin ConfigDump) is passed through RedactDumpJSON *)\nDefinition src_dump_scrubs_output := %v.\n", scrub)
 	b.WriteString("(* path-mode file naming: operations on the item name, in evaluation order *)\n")
 	fmt.Fprintf(&b, "Definition src_max_file_path : nat := %d.\n", v2.MaxFilePath)
 	for _, rn := range [][2]string{{"ClusterManagerConfig", "src_fname_ops_cluster"}, {"RouterConfiguration", "src_fname_ops_router"}} {
